@@ -1,9 +1,10 @@
 #!/bin/bash
 # usage: run_all.sh [tier] [ids...]   runs the claimed checks once in /verif against /repo, sequentially; one summary line per check on stdout
-cd /verif
+cd "$(dirname "$0")/.." || exit 2   # the tree this script belongs to (a vp-run snapshot, or /verif)
+L=${VERIF_LOGDIR:-/var/tmp}
 T=${1:-quick}; shift
 IDS="$@"; [ -z "$IDS" ] && IDS=$(python3 -c "import json; print(' '.join(c['property_id'] for c in json.load(open('MANIFEST.json'))['checks']))")
 for id in $IDS; do
-  s=$(date +%s); ./check $id --tier $T > /var/tmp/run_all_${T}_$id.log 2>&1; rc=$?; e=$(date +%s)
-  echo "$id rc=$rc $((e-s))s $(grep -c ' ok ' /var/tmp/run_all_${T}_$id.log) units ok; $(grep -E 'VIOLATION|UNDECIDED|KNOWN-FINDING' /var/tmp/run_all_${T}_$id.log | cut -c1-160 | tr '\n' '|')"
+  s=$(date +%s); ./check $id --tier $T > $L/run_all_${T}_$id.log 2>&1; rc=$?; e=$(date +%s)
+  echo "$id rc=$rc $((e-s))s $(grep -c ' ok ' $L/run_all_${T}_$id.log) units ok; $(grep -E 'VIOLATION|UNDECIDED|KNOWN-FINDING' $L/run_all_${T}_$id.log | cut -c1-160 | tr '\n' '|')"
 done
